@@ -280,7 +280,7 @@ extern "C" void harness()
 	TCb base(1);
 	D::Handle hbase = d->appendListener(EVK(1), [base](uint32_t a) { base(a); });
 	int n = 1;
-	unsigned op = vf_choose(6);
+	unsigned op = vf_choose(8);
 	unsigned how = op <= 1 ? vf_choose(3) : 0;  // registered through append / prepend / insert-before
 	if(op == 0) {                               // add a listener: strong guarantee
 		TCb cb(2);
@@ -316,6 +316,34 @@ extern "C" void harness()
 		bool failed = with_faults([&]() { r.appendListener(EVK(1), [cb](uint32_t a) { cb(a); }, []() { return false; }); });
 		vf_assert(count_listeners(*d) == n + (failed ? 0 : 1), 454);
 		if(! failed) n++;
+	}
+	else if(op == 6) {                          // remove a listener through the ScopedRemover that added it: strong guarantee, and never orphaned
+		eventpp::ScopedRemover<D> * r = new eventpp::ScopedRemover<D>(*d);
+		TCb cb(6);
+		D::Handle h = r->appendListener(EVK(1), [cb](uint32_t a) { cb(a); });
+		vf_assert(count_listeners(*d) == n + 1, 460);
+		bool res = false;
+		bool failed = with_faults([&]() { res = r->removeListener(EVK(1), h); });
+		if(failed) { vf_assert(count_listeners(*d) == n + 1, 461); vf_cover(COV_STRONG_OP_FAILED); }      // a failed removal leaves the listener attached ...
+		else { vf_assert(res, 462); vf_assert(count_listeners(*d) == n, 463); }
+		h = D::Handle();
+		delete r;
+		vf_assert(count_listeners(*d) == n, 464);                         // ... and still the remover's responsibility: it does not outlive the remover
+	}
+	else if(op == 7) {                          // reset / re-target a remover that holds two listeners: what a failed call leaves attached is still removed with the remover
+		eventpp::ScopedRemover<D> * r = new eventpp::ScopedRemover<D>(*d);
+		TCb cb(7), cb2(8);
+		r->appendListener(EVK(1), [cb](uint32_t a) { cb(a); });
+		r->prependListener(EVK(1), [cb2](uint32_t a) { cb2(a); });
+		unsigned form = vf_choose(2);
+		D * d2 = new D();                       // re-targeting means another dispatcher (setDispatcher with the current one keeps everything)
+		bool failed = with_faults([&]() { if(form == 0) r->reset(); else r->setDispatcher(*d2); });
+		if(! failed) vf_assert(count_listeners(*d) == n, 465);
+		else vf_assert(count_listeners(*d) <= n + 2, 466);
+		if(failed) r->setDispatcher(*d);        // (a no-op unless the failed call had already switched)
+		delete r;
+		vf_assert(count_listeners(*d) == n, 467);
+		delete d2;
 	}
 	else {                                      // dispatch with a throwing listener, then copy the dispatcher under faults
 		g_tr.clear();
